@@ -255,18 +255,24 @@ class SamplerCore:
         d["n_total"] = getattr(self, "n_total", None)
         d["logz_err"] = getattr(self, "logz_err", None)
 
+        # Detach what cannot be pickled (worker pool, progress bars holding the
+        # terminal stream) while the sampler is serialised, and always re-attach it.
+        # The configuration is a frozen dataclass, hence object.__setattr__.
+        pool_state = self.config.pool
+        pbar_owners = [self, self.reweighter, self.trainer, self.mutator]
+        pbar_state = [owner.pbar for owner in pbar_owners]
         try:
-            # Remove pool-related attributes that can't be pickled
-            if hasattr(self.config, "pool") and self.config.pool is not None:
-                pool_state = self.config.pool
-                self.config.pool = None
-                d["sampler"] = dill.dumps(self)
-                self.config.pool = pool_state
-            else:
-                d["sampler"] = dill.dumps(self)
+            object.__setattr__(self.config, "pool", None)
+            for owner in pbar_owners:
+                owner.pbar = None
+            d["sampler"] = dill.dumps(self)
         except Exception as e:
             print(f"Error while saving state: {e}")
             raise
+        finally:
+            object.__setattr__(self.config, "pool", pool_state)
+            for owner, pbar in zip(pbar_owners, pbar_state):
+                owner.pbar = pbar
 
         # Save to file
         with open(path, "wb") as f:
